@@ -517,6 +517,29 @@ Section Checkout.
       rewrite alookup_dset_other in Hv'; [exact Hv'|]. apply (Hnotin (k, ch) Hin).
   Qed.
 
+  (* more fuel never changes a successful checkout *)
+  Lemma co_go_fuel_mono f f' c st :
+    (forall a slot r, checkout_node H f a slot c st = Ok r -> checkout_node H f' a slot c st = Ok r) ->
+    forall kids es es', co_go f c st kids es = Ok es' -> co_go f' c st kids es = Ok es'.
+  Proof.
+    intros IHf. induction kids as [|[name child] r IH]; intros es es' Hg; cbn [co_go] in *; [exact Hg|].
+    destruct (checkout_node H f child (alookup name es) c st) as [v|] eqn:Hv; [|discriminate].
+    rewrite (IHf _ _ _ Hv). apply IH. exact Hg.
+  Qed.
+
+  Lemma checkout_fuel_mono f : forall f' a slot c st r,
+    (f <= f')%nat -> checkout_node H f a slot c st = Ok r -> checkout_node H f' a slot c st = Ok r.
+  Proof.
+    induction f as [|f IHf]; intros f' a slot c st r Hle Hr; [discriminate|].
+    destruct f' as [|f']; [lia|].
+    destruct (a_isdir a) eqn:Hd.
+    - apply checkout_dir_inv in Hr as (o & m & es' & Hh & Hc & Hm & Hslot & Hg & ->); [|exact Hd].
+      eapply checkout_dir_intro; try eassumption.
+      eapply co_go_fuel_mono; [|exact Hg]. intros a' slot' r'. apply IHf. lia.
+    - rewrite (checkout_file_node f a slot c st Hd) in Hr.
+      rewrite (checkout_file_node f' a slot c st Hd). exact Hr.
+  Qed.
+
   (* ================================================================== *)
   (* C19: copy checkout of a tree                                       *)
   (* ================================================================== *)
@@ -652,6 +675,25 @@ Section Checkout.
     apply checkout_file_obstructed_gen; try discriminate.
     - intros b [= ->]. apply (Hf b). reflexivity.
     - intros [= ->]. apply Hl. reflexivity.
+  Qed.
+
+  (* C06, failure side, in one statement: the model is a function, so [Err] means that the
+     workspace entry is left exactly as it was *)
+  Theorem C06_obstructed a c st :
+    (forall b, H b <> a_cs a -> checkout_file H a (Some (File b)) c st = Err) /\
+    (forall es, checkout_file H a (Some (Dir es)) c st = Err) /\
+    checkout_file H a (Some Other) c st = Err /\
+    (forall t, checkout_file H a (Some (LinkO t)) c st = Err) /\
+    (forall d, d <> a_cs a -> checkout_file H a (Some (LinkC d)) c st = Err) /\
+    (forall fuel n, a_isdir a = true -> is_dir n = false ->
+                    checkout_node H fuel a (Some n) c st = Err).
+  Proof.
+    split; [intros b; apply C06_obstructed_file|].
+    split; [intros es; apply C06_obstructed_dir|].
+    split; [apply C06_obstructed_other|].
+    split; [intros t; apply C06_obstructed_linko|].
+    split; [intros d; apply C06_obstructed_linkc|].
+    intros fuel n; apply C06_obstructed_node.
   Qed.
 
   (* ================================================================== *)
@@ -790,8 +832,8 @@ End Checkout.
 (* C01: commit / checkout round trip                                  *)
 (* ================================================================== *)
 
-(* [stmt_roundtrip] of CacheDefs.v is FALSE for the model as written (see the counterexample
-   [roundtrip_cex_*] at the end of this file): [cache_inv] allows an old manifest with a dangling
+(* [stmt_roundtrip] of CacheDefs.v is FALSE for the model as written (machine-checked refutation:
+   [RoundtripCex.roundtrip_refuted] at the end of this file): [cache_inv] allows an old manifest with a dangling
    directory-child checksum; a FILE of the tree whose bytes happen to be a manifest with a
    flagged child (disable-recursion / skip-cache) fills that key during the commit, and the
    sibling directory is then committed against it.  The extra premise [benign n] excludes files
@@ -1170,6 +1212,242 @@ Proof.
   exists fuel0, n2. split; [apply Hrun; lia|exact Hlog].
 Qed.
 
+From Coq Require Import String.
+
+(* ================================================================== *)
+(* non-vacuity: the functions run                                      *)
+(* ================================================================== *)
+Module Demo.
+  Definition Ht (b : bytes) : bytes := 49 :: 50 :: 51 :: b.
+  Definition s (x : string) : bytes := of_string x.
+  Definition n0 : node := Dir [(s "a", File (s "hi")); (s "d", Dir [(s "x", File (s "yo"))])].
+  Definition a0 : artifact := mkArt [] (s "top") true false false.
+
+  Definition rt_check (st st' : strategy) : bool :=
+    match commit_node Ht a0 n0 [] st with
+    | Ok (n', c', a') =>
+      match checkout_node Ht 3 a' None c' st' with
+      | Ok (Some n2) => node_eqb (logical c' n2) (tracked_view a0 n0)
+      | _ => false
+      end
+    | Err => false
+    end.
+  Example roundtrip_demo :
+    rt_check Link Link && rt_check Link Copy && rt_check Copy Link && rt_check Copy Copy = true.
+  Proof. vm_compute. reflexivity. Qed.
+
+  (* corrupting one object: copy checkout fails, link checkout does not notice *)
+  Definition corrupt_obj (c : cache) (d : bytes) : cache :=
+    map (fun kv => if beqb (fst kv) d then (fst kv, mkObj (s "HI") cache_perms) else kv) c.
+  Definition co_corrupt (st' : strategy) : option bool :=
+    match commit_node Ht a0 n0 [] Copy with
+    | Ok (n', c', a') =>
+      match checkout_node Ht 3 a' None (corrupt_obj c' (Ht (s "yo"))) st' with
+      | Ok _ => Some true | Err => Some false end
+    | Err => None
+    end.
+  Example corrupt_demo : co_corrupt Copy = Some false /\ co_corrupt Link = Some true.
+  Proof. vm_compute. auto. Qed.
+
+  (* checkout into a populated directory keeps the foreign entry, and is idempotent; an
+     obstructing entry makes it fail *)
+  Definition co_into (slot : option node) (st' : strategy) : res (option node) :=
+    match commit_node Ht a0 n0 [] Link with
+    | Ok (n', c', a') => checkout_node Ht 3 a' slot c' st'
+    | Err => Err
+    end.
+  Example frame_demo :
+    co_into (Some (Dir [(s "zzz", File (s "keep"))])) Copy =
+      Ok (Some (Dir [(s "a", File (s "hi")); (s "d", Dir [(s "x", File (s "yo"))]);
+                     (s "zzz", File (s "keep"))])) /\
+    co_into (Some (Dir [(s "a", File (s "hi")); (s "d", Dir [(s "x", File (s "yo"))]);
+                        (s "zzz", File (s "keep"))])) Copy =
+      Ok (Some (Dir [(s "a", File (s "hi")); (s "d", Dir [(s "x", File (s "yo"))]);
+                     (s "zzz", File (s "keep"))])) /\
+    co_into (Some (Dir [(s "a", File (s "other"))])) Copy = Err /\
+    co_into (Some (Dir [(s "d", File (s "x"))])) Link = Err.
+  Proof. vm_compute. auto. Qed.
+End Demo.
+
+(* ================================================================== *)
+(* stmt_roundtrip is false as stated                                   *)
+(* ================================================================== *)
+Module RoundtripCex.
+  (* an injective hash with textual digests of at least three characters: "000" followed by
+     the bits of every byte *)
+  Fixpoint pbits (p : positive) : bytes :=
+    match p with xH => [] | xO q => 48 :: pbits q | xI q => 49 :: pbits q end.
+  Definition encN (n : N) : bytes := match n with N0 => [122] | Npos p => pbits p ++ [44] end.
+  Definition Hb (b : bytes) : bytes := 48 :: 48 :: 48 :: flat_map encN b.
+
+  Lemma pbits_inj p1 : forall p2 r1 r2,
+    pbits p1 ++ 44 :: r1 = pbits p2 ++ 44 :: r2 -> p1 = p2 /\ r1 = r2.
+  Proof.
+    induction p1 as [q IH|q IH|]; intros [q2|q2|] r1 r2; cbn [pbits app]; intros E;
+      try discriminate E.
+    - injection E as E. destruct (IH _ _ _ E) as [-> ->]. auto.
+    - injection E as E. destruct (IH _ _ _ E) as [-> ->]. auto.
+    - injection E as E. auto.
+  Qed.
+
+  Lemma encN_inj n1 n2 r1 r2 : encN n1 ++ r1 = encN n2 ++ r2 -> n1 = n2 /\ r1 = r2.
+  Proof.
+    destruct n1 as [|p1], n2 as [|p2]; unfold encN; rewrite <- ?app_assoc; cbn [app]; intros E.
+    - injection E as E. auto.
+    - destruct p2; cbn [pbits app] in E; discriminate E.
+    - destruct p1; cbn [pbits app] in E; discriminate E.
+    - destruct (pbits_inj _ _ _ _ E) as [-> ->]. auto.
+  Qed.
+
+  Lemma Hb_inj : H_inj Hb.
+  Proof.
+    intros a b E. unfold Hb in E. injection E as E. revert b E.
+    induction a as [|x a IH]; intros [|y b] E; cbn [flat_map] in E.
+    - reflexivity.
+    - destruct y as [|[q|q|]]; discriminate E.
+    - destruct x as [|[q|q|]]; discriminate E.
+    - destruct (encN_inj _ _ _ _ E) as [-> E']. rewrite (IH _ E'). reflexivity.
+  Qed.
+
+  Lemma Hb_has : H_has Hb.
+  Proof. intros b. unfold has_cs, Hb. cbn [List.length]. apply N.leb_le. lia. Qed.
+
+  Lemma ascii_valid s : Forall (fun b => b < 128) s -> valid (List.length s) s = true.
+  Proof.
+    induction 1 as [|b r Hb Hr IH]; [reflexivity|].
+    cbn [List.length valid]. apply N.ltb_lt in Hb. rewrite Hb. exact IH.
+  Qed.
+
+  Lemma Hb_ascii b : Forall (fun x => x < 128) (Hb b).
+  Proof.
+    unfold Hb. repeat (constructor; [lia|]).
+    induction b as [|n b IH]; cbn [flat_map]; [constructor|].
+    apply Forall_app. split; [|exact IH].
+    destruct n as [|p]; unfold encN; [repeat constructor; lia|].
+    apply Forall_app. split; [|repeat constructor; lia].
+    induction p as [q IHq|q IHq|]; cbn [pbits]; try constructor; try lia; assumption.
+  Qed.
+
+  Lemma Hb_text : H_text Hb.
+  Proof.
+    intros b. split; [apply ascii_valid, Hb_ascii|].
+    unfold bytes_ok. eapply Forall_impl; [|apply Hb_ascii]. cbv beta. intros x Hx. lia.
+  Qed.
+
+  Definition s (x : string) : bytes := of_string x.
+  (* the bytes of a FILE: a manifest for "b" whose child "x" is non-recursive *)
+  Definition evil : bytes := enc_manifest (mkMan (s "b") [(s "x", mkArt [] (s "x") true true false)]).
+  (* the previous manifest of the artifact: its child "b" names a checksum that is not in the cache *)
+  Definition M0 : manifest := mkMan (s "top") [(s "b", mkArt (Hb evil) (s "b") true false false)].
+  Definition c0 : cache := cput [] (Hb (enc_manifest M0)) (enc_manifest M0).
+  Definition a0 : artifact := mkArt (Hb (enc_manifest M0)) (s "top") true false false.
+  Definition n0 : node := Dir [(s "a", File evil); (s "b", Dir [(s "x", Dir [(s "y", Dir [])])])].
+  (* what every checkout of the committed artifact produces: b/x/y is lost *)
+  Definition r1 : node := Dir [(s "a", File evil); (s "b", Dir [(s "x", Dir [])])].
+
+  Definition committed := commit_node Hb a0 n0 c0 Copy.
+  Definition n1 : node := match committed with Ok (n, _, _) => n | Err => Other end.
+  Definition c1 : cache := match committed with Ok (_, c, _) => c | Err => [] end.
+  Definition a1 : artifact := match committed with Ok (_, _, a) => a | Err => a0 end.
+
+  Lemma commit_eq : commit_node Hb a0 n0 c0 Copy = Ok (n1, c1, a1).
+  Proof. vm_compute. reflexivity. Qed.
+
+  Lemma checkout10 : checkout_node Hb 10 a1 None c1 Copy = Ok (Some r1).
+  Proof. vm_compute. reflexivity. Qed.
+
+  Lemma dec_M0 : dec_manifest (enc_manifest M0) = Some M0.
+  Proof. vm_compute. reflexivity. Qed.
+
+  Lemma evil_absent : cget c0 (Hb evil) = None.
+  Proof. vm_compute. reflexivity. Qed.
+
+  Lemma c0_get d o : cget c0 d = Some o -> d = Hb (enc_manifest M0) /\ o = mkObj (enc_manifest M0) cache_perms.
+  Proof.
+    unfold c0, cput, cget. cbn [ins_sorted alookup].
+    destruct (beqb d (Hb (enc_manifest M0))) eqn:E; [|discriminate].
+    apply beqb_eq in E. intros [= <-]. auto.
+  Qed.
+
+  Lemma c0_inv : cache_inv Hb c0.
+  Proof.
+    split; [|split].
+    - intros d o Hg. apply c0_get in Hg as [-> ->]. cbn [o_data o_mode]. auto.
+    - intros d o m Hg Hm. apply c0_get in Hg as [-> ->]. cbn [o_data] in Hm.
+      rewrite dec_M0 in Hm. injection Hm as <-. cbn [M0 m_contents].
+      constructor; [|constructor]. split; reflexivity.
+    - intros d o m Hg Hm. apply c0_get in Hg as [-> ->]. cbn [o_data] in Hm.
+      rewrite dec_M0 in Hm. injection Hm as <-. cbn [M0 m_contents].
+      constructor; [|constructor]. cbn [snd a_cs]. intros _ o' Hg'.
+      rewrite evil_absent in Hg'. discriminate.
+  Qed.
+
+  Ltac small_bytes :=
+    unfold bytes_ok;
+    match goal with |- Forall _ ?l => let l' := eval vm_compute in l in change l with l' end;
+    repeat (constructor; [lia|]); constructor.
+  Ltac good := split; [vm_compute; reflexivity|split; [vm_compute; reflexivity|small_bytes]].
+
+  Lemma n0_plain : plain n0.
+  Proof.
+    unfold n0. constructor.
+    - repeat constructor.
+    - constructor; [split; [good|constructor]|]. constructor; [|constructor].
+      split; [good|]. constructor; [repeat constructor|]. constructor; [|constructor].
+      split; [good|]. constructor; [repeat constructor|]. constructor; [|constructor].
+      split; [good|]. constructor; constructor.
+  Qed.
+
+  Lemma a0_top : top_art a0.
+  Proof.
+    split; [|reflexivity]. split; [vm_compute; reflexivity|].
+    small_bytes.
+  Qed.
+
+  Lemma r1_wrong : logical c1 r1 <> tracked_view a0 n0.
+  Proof.
+    cbn [tracked_view a0 n0 a_norec r1 logical map fst snd].
+    intros E. injection E as E. discriminate E.
+  Qed.
+
+  Theorem roundtrip_counterexample :
+    plain n0 /\ kind_ok a0 n0 /\ top_art a0 /\ cache_inv Hb c0 /\
+    commit_node Hb a0 n0 c0 Copy = Ok (n1, c1, a1) /\
+    forall fuel n2, checkout_node Hb fuel a1 None c1 Copy = Ok (Some n2) ->
+                    logical c1 n2 <> tracked_view a0 n0.
+  Proof.
+    split; [exact n0_plain|]. split; [reflexivity|]. split; [exact a0_top|].
+    split; [exact c0_inv|]. split; [exact commit_eq|].
+    intros fuel n2 Hr.
+    assert (n2 = r1) as ->; [|exact r1_wrong].
+    destruct (Nat.le_ge_cases fuel 10) as [Hle|Hge].
+    - apply (checkout_fuel_mono Hb _ 10) in Hr; [|exact Hle].
+      rewrite checkout10 in Hr. injection Hr as <-. reflexivity.
+    - pose proof (checkout_fuel_mono Hb _ fuel _ _ _ _ _ Hge checkout10) as Hr'.
+      rewrite Hr' in Hr. injection Hr as <-. reflexivity.
+  Qed.
+
+  Theorem roundtrip_refuted : codec_ok -> ~ stmt_roundtrip Hb.
+  Proof.
+    intros Hcodec Hrt.
+    destruct roundtrip_counterexample as (Hpl & Hk & Ht & Hi & Hc & Hno).
+    destruct (Hrt Hb_inj Hb_has Hb_text Hcodec a0 n0 c0 Copy Copy n1 c1 a1 Hpl Hk Ht Hi Hc)
+      as (fuel & n2 & Hr & Hlog).
+    exact (Hno fuel n2 Hr Hlog).
+  Qed.
+  Lemma dec_evil :
+    dec_manifest evil = Some (mkMan (s "b") [(s "x", mkArt [] (s "x") true true false)]).
+  Proof. vm_compute. reflexivity. Qed.
+
+  (* the witness is exactly what the extra premise of [roundtrip_benign] excludes *)
+  Lemma n0_not_benign : ~ benign n0.
+  Proof.
+    intros Hben. apply benign_dir in Hben. inversion Hben as [|x y H1 _]; subst.
+    cbn [snd benign] in H1. specialize (H1 _ dec_evil). cbn [m_contents] in H1.
+    inversion H1 as [|x y [Hn _] _]; subst. discriminate Hn.
+  Qed.
+End RoundtripCex.
+
 Print Assumptions copy_verified.
 Print Assumptions checkout_file_frame.
 Print Assumptions copy_tree_verified.
@@ -1183,3 +1461,7 @@ Print Assumptions C06_obstructed_node.
 Print Assumptions C06_obstructed_node_file.
 Print Assumptions checkout_idem.
 Print Assumptions roundtrip_benign.
+Print Assumptions C06_obstructed.
+Print Assumptions checkout_fuel_mono.
+Print Assumptions RoundtripCex.roundtrip_counterexample.
+Print Assumptions RoundtripCex.roundtrip_refuted.
